@@ -19,7 +19,7 @@ META = {
                   "predicates and compares per-section content tokens (stage D).",
     "level_note": "Trusted: the driver's 40-line walker (framing rule + field positions emitted by the spec), SHA-1 of Debug renderings "
                   "as content tokens, TLC. Payload bytes (heights, alpha, floats) are compared only as tokens. Auto-generated minimal "
-                  "MCNKs (0 user chunks) are compared across rounds only. MH2O vertex data: LVF 0 only.",
+                  "MCNKs (0 user chunks) are compared across rounds only. MH2O: 1-3 layers per chunk, LVF 0-3, rectangles 8x8 / 2x3 / 5x8.",
     "technique": "TLA+ layout state machine model-checked with TLC; TLC-generated shapes replayed on the real builder/serializer/parser; "
                  "trace validation of walker observations and content tokens against the format predicates",
     "design_ref": "DESIGN.md section 5, C13-C18 recipe, C14",
@@ -28,7 +28,7 @@ META = {
 
 VERS = ["VanillaEarly", "VanillaLate", "TBC", "WotLK", "Cataclysm", "MoP"]
 SHAPE_KEYS = ["ver", "ntex", "nmdl", "nwmo", "nddf", "nmodf", "mcnk", "where", "mcvt", "mcnr", "nly", "mcrf", "mcal", "mcsh",
-              "mclq", "mccv", "mcse", "mclv", "water", "mfbo", "mtxf", "mamp", "mtxp", "bmesh"]
+              "mclq", "mccv", "mcse", "mclv", "water", "wlay", "mfbo", "mtxf", "mamp", "mtxp", "bmesh"]
 
 
 def sig(b):
@@ -66,10 +66,12 @@ def run(ctx, cases_override=None):
         # self-test convenience only (mutant runs): stage A does not depend on /repo
         ctx.mc_stats.append({"module": "MC_AdtLayout", "cfg": "skipped", "states": 1, "transitions": 1, "actions": {}, "wall_s": 0})
     else:
-        ctx.mc("MC_AdtLayout", timeout=600)
+        # the code after the round-1 fixes (deviations Pad8, MtxfAlways): strict invariants; ParseFail needs "MclqIncl"
+        ctx.mc("MC_AdtLayout", timeout=600, allow_uncovered=("ParseFail",))
     if ctx.thorough:
-        # the format without the code's deviations: strict no-growth, MCIN size incl. header (ParseFail needs a deviation)
+        # the format without any deviation, and the pre-fix code with all of them (covers ParseFail)
         ctx.mc("MC_AdtLayout", cfg="MC_AdtLayout_ideal", timeout=600, allow_uncovered=("ParseFail",))
+        ctx.mc("MC_AdtLayout", cfg="MC_AdtLayout_legacy", timeout=600)
     if cases_override:
         cases, ncases = cases_override, sum(1 for _ in open(cases_override))
     else:
@@ -113,7 +115,7 @@ def run(ctx, cases_override=None):
         "tiles_through_all_4_rebuild_rounds": full,
         "evaluations": res["events"] - res["traces"],
         "distinct_nontrivial": nontrivial,
-        "rule": "distinct shapes (24 class attributes) with at least one optional list / sub-chunk / top-level chunk populated; "
+        "rule": "distinct shapes (25 class attributes) with at least one optional list / sub-chunk / top-level chunk populated; "
                 "one evaluation = one recorded event (Build, File with full walker observation, Parse with 24 section tokens, Rebuild) "
                 "checked by TLC",
         "exhaustive": False,
